@@ -115,6 +115,9 @@ def conjuncts(f, e, truth):
     """comparison facts implied by boolean expr e having the given truth value"""
     neg = {'Ge': 'Lt', 'Gt': 'Le', 'Le': 'Gt', 'Lt': 'Ge', 'Eq': 'Ne', 'Ne': 'Eq'}
     e = strip(e)
+    while isinstance(e, tuple) and e[0] == 'un' and e[1] == 'Not' and cmp_of(e) is None:
+        e = strip(e[2])
+        truth = not truth
     c = cmp_of(e)
     if c is not None:
         op, a, b, n = c
@@ -136,6 +139,19 @@ def conjuncts(f, e, truth):
         if n.endswith('::is_empty') and e[2]:
             # is_empty(range) false => start < end ; Vec::is_empty false => len >= 1
             return [('IsEmpty', e[2][0], truth)]
+        if n.endswith('RangeInclusive::<Idx>::contains') and len(e[2]) == 2 and truth:
+            for x in expr_walk(e[2][0]):
+                if isinstance(x, tuple) and x[0] == 'const' and x[1].get('pm'):
+                    for m in x[1]['pm']:
+                        mm = re.search(r'RangeInclusive::<\w+>::new\(const (\d+)_\w+, const (\d+)_\w+\)', m)
+                        if mm:
+                            lo = ('const', {'v': int(mm.group(1)), 't': 0})
+                            hi = ('const', {'v': int(mm.group(2)), 't': 0})
+                            return [('Ge', e[2][1], lo), ('Le', e[2][1], hi)]
+            rng = [x for x in expr_walk(e[2][0]) if isinstance(x, tuple) and x[0] == 'call' and x[1].endswith('RangeInclusive::<Idx>::new')]
+            if rng and len(rng[0][2]) == 2:
+                lo, hi = rng[0][2]
+                return [('Ge', e[2][1], lo), ('Le', e[2][1], hi)]
         if n == 'bitstr::Bitstr::is_u8_slice' or n == 'bitstr::Bitstr::is_bytestr':
             return [('Call:' + n, e[2][0] if e[2] else None, truth)]
     return []
@@ -270,6 +286,9 @@ def upper_by_type(f, e, depth=0):
         return v if isinstance(v, int) and v >= 0 else INF
     if e[0] == 'cast':
         src = upper_by_type(f, e[2], depth + 1)
+        inner = unwrap_value(strip(e[2]))
+        if src == INF and isinstance(inner, tuple) and inner[0] == 'call' and inner[1] in ('cell::Cell::to_usize',):
+            src = (1 << 64) - 1
         to = f.ty(e[3]) if isinstance(e[3], int) else ''
         tb = (1 << BITS[to]) - 1 if to in UNSIGNED else INF
         return min(src, tb)
@@ -284,7 +303,9 @@ def upper_by_type(f, e, depth=0):
             return a + b
         if op in ('Sub', 'SubWithOverflow'):
             return a
-        if op == 'Div' and a != INF:
+        if op == 'Div':
+            if b not in (INF, 0):
+                return (a if a != INF else (1 << 64) - 1) // b
             return a
         if op == 'Shr':
             return a
@@ -496,7 +517,13 @@ def auto_discharge(fx, f, s, tainted_params):
                         return 'D-LEN', 'buffer length times a constant <= 64'
                 return None
         else:
-            # signed
+            # signed: non-negative operands with known upper bounds
+            ua, ub_ = upper_by_type(f, a), upper_by_type(f, b)
+            lim = (1 << (BITS.get(ta, 64) - 1)) - 1
+            if op == 'Mul' and ua != INF and ub_ != INF and ua * ub_ <= lim:
+                return 'D-TYPE', 'non-negative operands bounded by their types (%s * %s fits %s)' % (ua, ub_, ta)
+            if op == 'Add' and ua != INF and ub_ != INF and ua + ub_ <= lim:
+                return 'D-TYPE', 'non-negative operands bounded by their types'
             if taint:
                 return None
             if ta in ('isize', 'i128', 'i64', 'i32'):
@@ -504,6 +531,128 @@ def auto_discharge(fx, f, s, tainted_params):
                     return 'D-LEN', 'signed sum of a buffer position and a 32-bit offset'
             return None
     return None
+
+
+def _place_text(e):
+    """text of the innermost field place an expression borrows from (through refs / deref calls)"""
+    e = strip(e)
+    hops = 0
+    while isinstance(e, tuple) and hops < 20:
+        hops += 1
+        if e[0] in ('ref', 'cast'):
+            e = e[2]
+        elif e[0] == 'call' and e[2] and (e[1].endswith('::deref') or e[1].endswith('::deref_mut') or e[1].endswith('as_mut_slice')):
+            e = e[2][0]
+        elif e[0] == 'proj' and all(p == '*' for p in e[2]):
+            e = e[1]
+        else:
+            break
+    return expr_str(e, -20)
+
+
+def len_atom_for(z, vec_expr):
+    p = _place_text(vec_expr)
+    for n in sorted(z.nodes, key=len):
+        if '::len(' in n and p in n and not n.startswith(('Sub(', 'Add(')):
+            return n
+    return None
+
+
+def discharge_call(fx, f, s, tainted_params):
+    kind, ops, c = s['kind'], s['ops'], s.get('callee', '')
+    z, gtxt = build_zone(f, s['bb'], ops)
+    k2 = kind.split(':')[1] if ':' in kind else kind
+    if kind.startswith('call:'):
+        if k2 == 'unwrap':
+            x = strip(ops[0])
+            if isinstance(x, tuple) and x[0] == 'call':
+                n = x[1]
+                if n.endswith('Vec::<T, A>::pop') and x[2]:
+                    la = len_atom_for(z, x[2][0])
+                    if la and z.lower(la, '0') >= 1:
+                        return 'D-ZONE', 'pop() on a vector whose length is >= 1 by %s' % gtxt[:2]
+                if 'fmt::Write::write_fmt' in n and x[2] and 'String' in expr_str(x[2][0], -6) or ('write_fmt' in n and _is_string_target(f, x)):
+                    return 'D-INFALLIBLE', 'write! into a String cannot fail'
+                if n.endswith('char::from_u32') or n.endswith('<impl char>::from_u32'):
+                    if upper_by_type(f, x[2][0]) <= 0xD7FF:
+                        return 'D-TYPE', 'char::from_u32 of a value <= %s is always Some' % upper_by_type(f, x[2][0])
+                if n.endswith('from_digit') and len(x[2]) == 2:
+                    r = strip(x[2][1])
+                    if isinstance(r, tuple) and r[0] == 'const' and upper_by_type(f, x[2][0]) < r[1].get('v', 0):
+                        return 'D-TYPE', 'digit value < radix by its definition (>> 4 / & 0xf of a byte)'
+            return None
+        if k2 == 'radix':
+            r = strip(ops[-1])
+            vals = []
+            def collect(e, depth=0):
+                e = unwrap_value(strip(e))
+                if isinstance(e, tuple) and e[0] == 'const' and 'v' in e[1]:
+                    vals.append(e[1]['v']); return True
+                if isinstance(e, tuple) and e[0] == 'phi' and depth < 4:
+                    return all(collect(x, depth + 1) for x in e[1])
+                if isinstance(e, tuple) and e[0] == 'agg' and e[2] in ('Some',) and e[3]:
+                    return collect(e[3][0], depth + 1)
+                if isinstance(e, tuple) and e[0] == 'agg' and e[2] == 'None':
+                    return True
+                if isinstance(e, tuple) and e[0] == 'call' and e[1].endswith('unwrap_or_else') and e[2]:
+                    ok = collect(e[2][0], depth + 1)
+                    clo = [y for y in expr_walk(e[2][1]) if isinstance(y, tuple) and y[0] == 'closure']
+                    if clo and clo[0][1] in fx.fns:
+                        g = fx.fns[clo[0][1]]
+                        for (b0, i0, kind0, payload) in g.defs().get(0, []):
+                            if kind0 == 'assign':
+                                ok = ok and collect(g.expr_of_rvalue(payload, 0, frozenset()), depth + 1)
+                    return ok
+                return False
+            if collect(r) and vals and all(2 <= v <= 36 for v in vals):
+                return 'D-CONST', 'radix is one of the constants %s' % sorted(set(vals))
+            # guarded radix
+            if z.prove_lin_ge(lin(r), ({}, 0), 2) and z.upper(lin(r)) <= 36:
+                return 'D-ZONE', 'radix checked to be in 2..=36'
+            return None
+        if k2 == 'div0' and len(ops) == 2:
+            d = expr_str(unwrap_value(strip(ops[1])), -10)
+            for (op, a, b) in guard_facts(f, s['bb']):
+                if op == 'Ne':
+                    sa, sb = expr_str(unwrap_value(strip(a)), -10), expr_str(unwrap_value(strip(b)), -10)
+                    if (sa == d and sb == '0') or (sb == d and sa == '0'):
+                        return 'D-ZONE', 'divisor != 0 on this path (dominating `== 0` test returns DivisionByZero)'
+            return None
+        if k2 == 'chunks':
+            r = strip(ops[-1])
+            if isinstance(r, tuple) and r[0] == 'const' and r[1].get('v', 0) > 0:
+                return 'D-CONST', 'chunk size %s' % r[1]['v']
+            return None
+        if k2 == 'str-index' and 'RangeFull' in expr_str(ops[-1], -4):
+            return 'D-CONST', 'full range'
+        if k2 in ('index', 'swap', 'remove') and len(ops) >= 2:
+            la = len_atom_for(z, ops[0])
+            if la is None:
+                return None
+            lenl = ({la: 1}, 0)
+            idxs = ops[1:]
+            ok_all = True
+            for ix in idxs:
+                ixs = strip(ix)
+                if isinstance(ixs, tuple) and ixs[0] == 'agg' and 'RangeFrom' in str(ixs[1]):
+                    if not z.prove_lin_ge(lenl, lin(ixs[3][0]), 0):
+                        ok_all = False
+                elif isinstance(ixs, tuple) and ixs[0] == 'agg' and 'Range' in str(ixs[1]) and len(ixs[3]) == 2:
+                    if not (z.prove_lin_ge(lin(ixs[3][1]), lin(ixs[3][0]), 0) and z.prove_lin_ge(lenl, lin(ixs[3][1]), 0)):
+                        ok_all = False
+                elif isinstance(ixs, tuple) and ixs[0] == 'agg':
+                    ok_all = False
+                else:
+                    if not z.prove_lin_ge(lenl, lin(ixs), 1):
+                        ok_all = False
+            if ok_all:
+                return 'D-ZONE', 'index/range within len by %s' % gtxt[:3]
+            return None
+    return None
+
+
+def _is_string_target(f, x):
+    return x[2] and 'String' in expr_str(x[2][0], -8)
 
 
 def _small_signed(f, e):
@@ -538,12 +687,16 @@ def run(rep, facts, tier):
         key = site_key(s['fn'], s['kind'], sig)
         # identical keys (same function, same operation on the same operands) are one obligation
         res = auto_discharge(fx, f, s, tainted_params)
+        if res is None and (s['kind'].startswith('call:') or s['kind'].startswith('panic:')):
+            res = discharge_call(fx, f, s, tainted_params)
         taint = any(is_tainted(f, o, tainted_params) for o in s['ops'])
         if res is None and key in table:
             needs, reason = table[key]
             used.add(key)
             ok_needs = True
-            if needs and needs != '-':
+            if needs and needs.startswith('@'):
+                ok_needs = PREDICATES[needs](fx)
+            elif needs and needs != '-':
                 _, gtxt = build_zone(f, s['bb'], s['ops'])
                 hay = ' ; '.join(gtxt) + ' ; ' + ' ; '.join(_calls_dominating(f, s['bb']))
                 ok_needs = all(n_.strip() in hay for n_ in needs.split('&&'))
@@ -569,6 +722,57 @@ def run(rep, facts, tier):
     rep.extra['sites_enumerated'] = n_sites
     rep.extra['tainted_params'] = len(tainted_params)
     rep.extra['reviewed_table_entries'] = len(table)
+
+
+def _next_nonws_filters(fx):
+    """Lex::next_nonws never hands back a Whitespace/Comment token: no return value is the unfiltered result of a
+    Lex::next call, and the function switches on the Tok discriminant of what it fetched"""
+    f = fx.fns.get('lex::Lex::next_nonws')
+    if f is None:
+        return False
+    from ..core import return_defs
+    for (bb, i, cls, d) in return_defs(f):
+        if cls == 'forward' and d == 'lex::Lex::next':
+            return False
+    has_tok_switch = False
+    for bb in f.reachable_blocks():
+        t = f.blocks[bb]['term']
+        if t['k'] == 'switch':
+            e = f.expr_of_operand(t['discr'])
+            if isinstance(e, tuple) and e[0] == 'discr' and e[2] == 'lex::Tok':
+                has_tok_switch = True
+    # and State::next_token is fed by next_nonws only
+    nt = fx.fns.get('state::State::next_token')
+    fed = nt is not None and any(callee_of(t) == 'lex::Lex::next_nonws' for _, t in nt.calls()) and \
+        not any(callee_of(t) == 'lex::Lex::next' for _, t in nt.calls())
+    return has_tok_switch and fed
+
+
+def _to_uint_callers_bound_len(fx):
+    """D-CONTRACT: every caller of Bitstr::to_uint / to_int (other than to_int itself) has checked len <= 128 first"""
+    ok = True
+    n = 0
+    for target in ('bitstr::Bitstr::to_uint', 'bitstr::Bitstr::to_int'):
+        for caller in fx.callers().get(target, ()):
+            if caller == 'bitstr::Bitstr::to_int' or caller not in fx.fns:
+                continue
+            f = fx.fns[caller]
+            for bb, t in f.calls():
+                if callee_of(t) != target:
+                    continue
+                n += 1
+                bounded = False
+                for (op, a, b) in guard_facts(f, bb):
+                    if op in ('Le', 'Lt') and 'Bitstr::len' in expr_str(strip(a), -10):
+                        lb = lin(b)
+                        if lb is not None and not lb[0] and lb[1] <= 128:
+                            bounded = True
+                if not bounded:
+                    ok = False
+    return ok and n >= 2
+
+
+PREDICATES = {'@next_nonws-filters': _next_nonws_filters, '@to_uint-callers-bound-len': _to_uint_callers_bound_len}
 
 
 def _calls_dominating(f, bb):
